@@ -584,6 +584,23 @@ def jump_from_sibling(times: int = 1) -> dict:
     }
 
 
+def two_target_jumps(slow: str = "b") -> dict:
+    """root -> a, b -> join -> ctl; ctl jumps first to `join` (whose upstreams are complete at that moment), then
+    to `root` (which re-arms a, b and join as ordinary downstream stages), then finishes.  One upstream is slower."""
+    slow_t = [{"kind": "poll", "n": 2, "out": [slow + "_p"]}, dict(OK, out=[slow + "_o"])]
+    return {
+        "name": f"twotargets_{slow}",
+        "confluent": True,
+        "stages": [
+            st("root"),
+            st("a", ["root"], slow_t if slow == "a" else None),
+            st("b", ["root"], slow_t if slow == "b" else None),
+            st("join", ["a", "b"], [dict(OK, out=["join_o"])]),
+            st("ctl", ["join"], [{"kind": "jump", "to": "join", "to_seq": ["join", "root"], "out": ["ctl_o"]}]),
+        ],
+    }
+
+
 def skip_in_later_iteration(times: int = 1) -> dict:
     """a -> b -> c[jump back to a]; b is enabled by an expression over a's output, which is true in the first
     iteration and false afterwards: b runs, is re-armed by the jump, and is then skipped."""
